@@ -222,6 +222,52 @@ def r2_nanflow(rule, root=None, report_unanalysed=True):
             rule.skip("%s (%d site(s))" % (lab, len(missed) if missed else len(all_sites)), err or "site not reached by the model")
 
 
+
+IVAL_RS = "fidget-core/src/types/interval.rs"
+
+
+def r5_sibling_guards(rule, root=None):
+    """guards that come in pairs must agree: sin / cos take the same early exits (NaN, a whole period with
+    `>=`, a degenerate interval); mix tests both operands for a single *bit pattern* the same way"""
+    chains = {}
+    for name in ("sin", "cos"):
+        fn = A.find_fn(IVAL_RS, name, self_ty="Interval", root=root)
+        ms = [m for m in A.find(fn["body"], "Match") if "quadrant" in A.unparse(m["e"]) or A.strip(m["e"]).get("k") == "Tuple"]
+        if not ms:
+            rule.lost("the quadrant match of Interval::%s" % name)
+            continue
+        chains[name] = [A.norm_cond(c) for c in (A.enclosing_conds(fn["body"], ms[0]) or [])]
+        if "!self.width()>=TAU" in chains[name]:
+            rule.ok("Interval::%s: a box at least one period wide is [-1, 1] (`width >= TAU`)" % name, file=IVAL_RS, line=fn["ln"])
+        else:
+            rule.bad("%s|period" % name, "Interval::%s reaches its quadrant table under %s; a box whose width is exactly one period must already have returned [-1, 1] (`self.width() >= TAU`)" % (name, chains[name]), A.where(fn))
+    if len(chains) == 2:
+        if chains["sin"] == chains["cos"]:
+            rule.ok("Interval::sin and Interval::cos take the same early exits")
+        else:
+            rule.bad("sincos|siblings", "Interval::sin reaches its quadrant table under %s, Interval::cos under %s: the two are the same function shifted by a quarter period" % (chains["sin"], chains["cos"]), "")
+    fn = A.find_fn(IVAL_RS, "mix", self_ty="Interval", root=root)
+    ifs = [i for i in A.find(fn["body"], "If") if "has_nan" in A.unparse(i["cond"])]
+    if not ifs:
+        rule.lost("the NaN / non-singleton guard of Interval::mix")
+        return
+    dis = set()
+
+    def rec(e):
+        e = A.strip(e)
+        if e.get("k") == "Binary" and e["op"] == "||":
+            rec(e["left"]); rec(e["right"])
+        else:
+            dis.add(A.unparse(e).replace(" ", ""))
+
+    rec(ifs[0]["cond"])
+    want = {"self.has_nan()", "rhs.has_nan()", "(self.lower().to_bits()!=self.upper().to_bits())", "(rhs.lower().to_bits()!=rhs.upper().to_bits())"}
+    if dis == want:
+        rule.ok("Interval::mix hashes only single bit patterns on both sides (-0.0 and +0.0 differ)", file=IVAL_RS, line=fn["ln"])
+    else:
+        rule.bad("mix|singleton", "Interval::mix gives up (NaN interval) under %s; both operands must be tested for a single bit pattern (`lower().to_bits() != upper().to_bits()`): [-0.0, +0.0] is two inputs to the hash" % sorted(dis), A.where(fn, ifs[0]))
+
+
 def run(ctx):
     r = ctx.rule("R1", "monotone interval ops take each result bound from the bound their monotonicity dictates", 16)
     ctx.guarded(r, r1_variance)
@@ -240,3 +286,5 @@ def run(ctx):
     ctx.guarded(r, AC.check_magic_constants, focus="interval")
     r = ctx.rule("R4", "Transformable for Interval is the homogeneous transform of its f32 and Grad siblings", 3)
     ctx.guarded(r, lambda rule: SC.r_transformable(rule, ("Interval",)))
+    r = ctx.rule("R5", "paired guards agree: sin / cos early exits (whole period with >=), mix's single-bit-pattern tests", 4)
+    ctx.guarded(r, r5_sibling_guards)
